@@ -73,7 +73,7 @@ func (f *Maplist) Call(s *slip.Scope, args slip.List, depth int) (result slip.Ob
 			l2 := args[i].(slip.List)
 			ca[i-1] = l2[n:]
 		}
-		rlist[n] = caller.Call(s, ca, d2)
+		rlist[n] = slip.PrimaryValue(caller.Call(s, ca, d2))
 	}
 	return rlist
 }
